@@ -66,4 +66,23 @@ def specStep (m : List Entry) : MOp → List Entry
   | .upd a b r => if a = b then m else amInsert (amEraseOne m a r) b r
   | .del k r => amEraseOne m k r
 
+/-! ## `IndexData::range_scan`, disk-backed branch, strict lower bound `col > v`
+
+Whole keys are ranks (`Int`) as everywhere; `first k` is the value of the first key column of the
+key with rank `k`, in an arbitrary type `α` — nothing is assumed about `α` having successors. -/
+
+/-- the re-check of the first key column while walking the scanned entries: `continue` when the
+    first column equals the exclusive start -/
+def postStart {α : Type} [DecidableEq α] (first : Int → α) (v : α) (es : List Entry) : List RowId :=
+  (es.filter (fun e => first e.1 != v)).flatMap (·.2)
+
+/-- `col > v` as coded: when the start value has a "next value" `w` (`smart_increment_value`) the
+    B+ tree is scanned from `Included([w])` — `rw` is the position of `[w]` among the whole keys —
+    otherwise from `Excluded([v])` (`rv` = position of `[v]`); then the first column is re-checked -/
+def diskExclStart {α : Type} [DecidableEq α] (t : BTree) (first : Int → α) (v : α) (rw : Option Int)
+    (rv : Int) : Except Err (List RowId) :=
+  match rw with
+  | some rw => (rangeScanEntries t (some rw) none true true).map (postStart first v)
+  | none => (rangeScanEntries t (some rv) none false true).map (postStart first v)
+
 end VibeProof.IndexBackend
